@@ -472,6 +472,18 @@ func (p *untypedParamBinder) setSliceFieldValue(target reflect.Value, defaultVal
 	if !target.CanSet() {
 		return nil
 	}
+	if items, ok := defaultValue.([]interface{}); ok && sz == 0 {
+		// the default read from the spec document is bound like the items sent by a client
+		data = make([]string, len(items))
+		for i, item := range items {
+			if f, isFloat := item.(float64); isFloat {
+				data[i] = strconv.FormatFloat(f, 'f', -1, 64)
+			} else {
+				data[i] = fmt.Sprintf("%v", item)
+			}
+		}
+		sz, defVal = len(data), reflect.Zero(target.Type())
+	}
 	if sz == 0 {
 		target.Set(defVal)
 		return nil
